@@ -166,35 +166,45 @@ Theorem C01_tri_fwd_inv : forall n (lower : bool) m loc y,
 Proof. exact tri_fwd_inv. Qed.
 Print Assumptions C01_tri_fwd_inv.
 
-(* Planar with leaky-relu activation, negative slope 0 < s <= 1, w <> 0, any dimension.  The
-   hypothesis -1 < w . u-hat is what get_act_scale enforces (proved for all parameters in C11). *)
+(* Planar with leaky-relu activation: ANY negative slope s > 0, any w <> 0, any raw act_scale u0, any
+   dimension.  Nothing is assumed about u-hat: that 1 + w.u-hat > 0 and 1 + s w.u-hat > 0 is proved from
+   get_act_scale as it is after fix D7 (constraint value divided by max(1, s)). *)
 Theorem C01_planar_inv_fwd : forall s w u0 b x,
-  0 < s <= 1 -> Exists (fun wi => wi <> 0) w -> length u0 = length w -> length x = length w ->
-  -1 < dot ROps w (planar_u ROps w u0) ->
+  0 < s -> Exists (fun wi => wi <> 0) w -> length u0 = length w -> length x = length w ->
   planar_inv ROps s w u0 b (planar_fwd ROps (Some s) w u0 b x) = x.
 Proof. exact planar_inv_fwd. Qed.
 Print Assumptions C01_planar_inv_fwd.
 Theorem C01_planar_fwd_inv : forall s w u0 b y,
-  0 < s <= 1 -> Exists (fun wi => wi <> 0) w -> length u0 = length w -> length y = length w ->
-  -1 < dot ROps w (planar_u ROps w u0) ->
+  0 < s -> Exists (fun wi => wi <> 0) w -> length u0 = length w -> length y = length w ->
   planar_fwd ROps (Some s) w u0 b (planar_inv ROps s w u0 b y) = y.
 Proof. exact planar_fwd_inv. Qed.
 Print Assumptions C01_planar_fwd_inv.
-(* The guard s <= 1 is NECESSARY: get_act_scale enforces only -1 < w . u-hat and the constructor rejects
-   only s <= 0; for a negative slope s > 1 with w . u-hat < -1/s the layer is not injective and its
-   analytic inverse does not undo it.  Witness w = (1,0), act_scale (0,0), b = 0,
-   s = -2/M with M = -1 + ln(1 + ln 2) (s ~ 4.22), x = (-1,0), x' = (1/(1+M), 0); replayed on /repo:
-   transform(x) = transform(x') = (1,0), inverse(transform(x)) = (1.899,0).  (Found via the C02 proof.) *)
-Theorem C01_planar_slope_gt1_refuted : exists s w u0 b x x',
+(* what get_act_scale delivers: both branch slopes of the layer are positive *)
+Theorem C01_planar_constraint : forall s w u0,
+  0 < s -> Exists (fun wi => wi <> 0) w -> length u0 = length w ->
+  0 < 1 + dot ROps w (planar_u ROps (Some s) w u0) /\ 0 < 1 + s * dot ROps w (planar_u ROps (Some s) w u0).
+Proof. exact planar_constraint. Qed.
+Print Assumptions C01_planar_constraint.
+(* BEFORE fix D7 (e65a946) get_act_scale enforced only -1 < w . u-hat and the constructor rejects only
+   s <= 0: for a negative slope s > 1 with w . u-hat < -1/s the layer built with the old formula
+   [planar_u_old] is not injective and its analytic inverse does not undo it.  planar_fwd_old /
+   planar_inv_old (Proofs/RqsInvP.v) = transform / inverse with planar_u_old.  Witness w = (1,0),
+   act_scale (0,0), b = 0, s = -2/M with M = -1 + ln(1 + ln 2) (s ~ 4.22), x = (-1,0), x' = (1/(1+M), 0);
+   replayed on the unrepaired code: transform(x) = transform(x') = (1,0), inverse(transform(x)) = (1.899,0). *)
+Theorem C01_planar_old_slope_gt1_refuted : exists s w u0 b x x',
   1 < s /\ Exists (fun wi => wi <> 0) w /\ length u0 = length w /\ length x = length w /\ length x' = length w /\
-  -1 < dot ROps w (planar_u ROps w u0) /\
-  x <> x' /\ planar_fwd ROps (Some s) w u0 b x = planar_fwd ROps (Some s) w u0 b x' /\
-  planar_inv ROps s w u0 b (planar_fwd ROps (Some s) w u0 b x) <> x.
-Proof. exact planar_slope_gt1_refuted. Qed.
-Print Assumptions C01_planar_slope_gt1_refuted.
+  -1 < dot ROps w (planar_u_old ROps w u0) /\
+  x <> x' /\ planar_fwd_old s w u0 b x = planar_fwd_old s w u0 b x' /\
+  planar_inv_old s w u0 b (planar_fwd_old s w u0 b x) <> x.
+Proof. exact planar_old_slope_gt1_refuted. Qed.
+Print Assumptions C01_planar_old_slope_gt1_refuted.
+(* for slopes <= 1 the repair changes nothing *)
+Theorem C01_planar_u_old_same : forall s w u0, s <= 1 -> planar_u ROps (Some s) w u0 = planar_u_old ROps w u0.
+Proof. exact planar_u_old_same. Qed.
+Print Assumptions C01_planar_u_old_same.
 (* transform_and_log_det computes the activation from `x @ w`, transform from `w @ x`: same point *)
 Theorem C01_planar_and_log_det_value : forall ns w u0 b x,
-  vadd ROps x (vscale ROps (planar_act ROps ns (n_add ROps (dot ROps x w) b)) (planar_u ROps w u0))
+  vadd ROps x (vscale ROps (planar_act ROps ns (n_add ROps (dot ROps x w) b)) (planar_u ROps ns w u0))
   = planar_fwd ROps ns w u0 b x.
 Proof. exact planar_fwd_and_log_det_value. Qed.
 Print Assumptions C01_planar_and_log_det_value.
@@ -320,9 +330,10 @@ Proof. exact ex_leaky_roundtrip. Qed.
 (* a lower-triangular matrix with a negative diagonal entry meets the TriangularAffine hypotheses *)
 Example C01_ex_tri : square 2 [[2; 0]; [1; -3]] /\ lower_tri 2 [[2; 0]; [1; -3]] /\ diag_nonzero 2 [[2; 0]; [1; -3]].
 Proof. exact ex_tri_ok. Qed.
-(* a planar layer meets the planar hypotheses *)
-Example C01_ex_planar : -1 < dot ROps [1; 0] (planar_u ROps [1; 0] [0; 0]).
-Proof. exact ex_planar_ok. Qed.
+(* the parameters that collided before fix D7 (negative_slope 2, act_scale (-5,0)) now round-trip *)
+Example C01_ex_planar :
+  planar_inv ROps 2 [1; 0] [-5; 0] 0 (planar_fwd ROps (Some 2) [1; 0] [-5; 0] 0 [-1; 3 / 10]) = [-1; 3 / 10].
+Proof. exact ex_planar_roundtrip. Qed.
 (* a non-constant autoregressive conditioner (loc_1 = x_0, scale_1 = -2) meets the MAF hypotheses *)
 Example C01_ex_maf : forall x, length x = 2%nat -> maf_inv 0 aff_ti ex_g [] (maf_fwd aff_t ex_g [] x) = x.
 Proof. exact ex_maf_roundtrip. Qed.
